@@ -267,7 +267,7 @@ func checkC20(c *Ctx) {
 
 	// ---- array fill
 	fills := []int{1000, 1000000, 1048575, 1048576, 1048577, 1100000, 2000000, 10000000, 2000000000}
-	var fjobs []Job
+	var fjobs, wrapJobs []Job
 	for _, x := range fills {
 		fjobs = append(fjobs, Job{Kind: "run", Prog: []byte(fmt.Sprintf("BEGIN {\n  print \"start\"\n  a = []\n  a[%d] = 1\n  print a.length()\n}\n", x)), Budget: 1000, N: x})
 	}
@@ -280,6 +280,39 @@ func checkC20(c *Ctx) {
 			fjobs = append(fjobs, Job{Kind: "run", Prog: []byte(fmt.Sprintf("BEGIN {\n  print \"start\"\n  %s\n  a[%d] = 1\n  print a.length()\n}\n", base.setup, x)), Budget: 1000, N: x})
 		}
 	}
+	// an array that already holds more than the limit (grown by push): an index write at its end or beyond is a fill
+	// index like any other
+	for _, x := range []int{1048580, 1048581, 1048600} {
+		fjobs = append(fjobs, Job{Kind: "run", Prog: []byte(fmt.Sprintf("BEGIN {\n  print \"start\"\n  a = []\n  for (i = 0; i < 1048580; i++) {\n    a.push(0)\n  }\n  a[%d] = 1\n  print a.length()\n}\n", x)), Budget: 20_000_000, N: x})
+	}
+	// the refusals arrive the same wherever the operation stands: inside every kind of loop, a match arm, a function
+	for _, op := range []struct {
+		what, stmt string
+		n          int
+	}{{"fill", "a[2000000] = 1", 2000000}, {"width", "printf(\"%70000s\", \"x\")", 70000}, {"call", "rr(0)", 0}} {
+		for _, wrap := range []string{"for (c in \"ab\") {\n    %s\n  }", "for (c in [1, 2]) {\n    %s\n  }", "for (k, v in {p: 1}) {\n    %s\n  }", "while (1) {\n    %s\n  }",
+			"for (i = 0; i < 2; i++) {\n    %s\n  }", "t = match (1) { _ => {\n    %s\n  } }", "wrapf()", "if (1) {\n    for (c in \"a\") {\n      for (d in \"b\") {\n        %s\n      }\n    }\n  }"} {
+			body := wrap
+			if strings.Contains(wrap, "%s") {
+				body = fmt.Sprintf(wrap, op.stmt)
+			}
+			pre := "function rr(n) {\n  return rr(n + 1)\n}\nfunction wrapf() {\n  for (c in \"ab\") {\n    " + op.stmt + "\n  }\n}\n"
+			wjob := Job{Kind: "run", Prog: []byte(pre + "BEGIN {\n  print \"start\"\n  a = []\n  " + body + "\n  print \"after\"\n}\n"), Budget: 5_000_000, N: op.n, Tag: op.what}
+			wrapJobs = append(wrapJobs, wjob)
+		}
+	}
+	pool.Map(wrapJobs, func(i int, r Result) {
+		if r.Class == "timeout" || r.Class == "budget" {
+			c.Count("inconclusive", 1)
+			return
+		}
+		if r.Class != "runtime" || string(r.Stdout) != "start\n" {
+			c.Violation("refusal-lost-"+r.Class, map[string]any{"limit": wrapJobs[i].Tag, "program": string(wrapJobs[i].Prog), "got_class": r.Class, "got_err": r.ErrMsg, "got_stdout": firstN(string(r.Stdout), 200), "detail": firstN(r.Detail, 800),
+				"why": "an operation beyond a limit is refused with a runtime error that stops the run, wherever it stands"})
+			return
+		}
+		c.Case("wrapped:"+string(wrapJobs[i].Prog), true)
+	})
 	pool.Map(fjobs, func(i int, r Result) {
 		x := fjobs[i].N
 		rep := map[string]any{"index": x, "program": string(fjobs[i].Prog), "got_class": r.Class, "got_err": r.ErrMsg, "got_stdout": string(r.Stdout), "detail": r.Detail}
